@@ -197,8 +197,9 @@ Definition truthy (m : mode) (v : val) : out bool :=
    every mode since the repair of or.go; the mode argument is kept for uniformity with the other switches) *)
 Definition or_step (m : mode) (v : val) : out (option val) :=
   Ok (if is_nil (primary v) then None else Some (primary v)).
-(* setq returns the object it evaluated, mapcar stores what the call returned, a cond clause without forms returns
-   its test object: the language takes the primary value, Go keeps the Values object *)
+(* mapcar stores what the call returned, dolist / dotimes look at the object their list / count form returned: the
+   language takes the primary value, Go keeps the Values object.  (setq and a cond clause without forms return the
+   primary value in every mode since the repairs of setq.go and cond.go.) *)
 Definition last_red (m : mode) (v : val) : out val :=
   match m with
   | Slip => Ok v
@@ -356,7 +357,7 @@ Fixpoint ev_cond (st : state) (sc : scope) (cls : list (expr * list expr)) : res
       bind (ev st sc c) (fun v st1 =>
       bindo (truthy m v) st1 (fun b =>
       if b then match body with
-                | [] => (last_red m v, st1)
+                | [] => (Ok (primary v), st1)          (* the primary value of the test (after the repair) *)
                 | _ => ev_seq st1 sc body VNil
                 end
       else ev_cond st1 sc cls'))
@@ -402,8 +403,7 @@ Fixpoint ev_setq (st : state) (sc : scope) (ps : list (string * expr)) (last : v
   | (x, e) :: ps' =>
       bind (ev st sc e) (fun v st1 =>
       bindo (arg_red m v) st1 (fun a =>              (* Scope.Set stores vs.First() *)
-      bind (assign st1 sc x a) (fun _ st2 =>
-      bindo (last_red m v) st2 (fun r => ev_setq st2 sc ps' r))))
+      bind (assign st1 sc x a) (fun _ st2 => ev_setq st2 sc ps' a)))      (* setq returns what it stored *)
   end.
 
 (* Lambda.Call + BoundCall; Caller.Call of a built-in *)
